@@ -345,10 +345,10 @@ func detSites(c *ctx.Ctx) []*detSite {
 
 // reviewed exceptions: sites classified sensitive/unclassified by the generic rules but confirmed harmless by reading (one reason each)
 var detReviewed = map[string]string{
-	"compiler/internal/typeparams|InstanceMap.Iterate|0": "generic iterator over the two-level bucket map: order is decided at its callers, which are classified themselves",
-	"compiler/internal/typeparams|InstanceMap.Iterate|1": "inner bucket loop of the same generic iterator",
-	"compiler/internal/typeparams|InstanceMap.Keys|0":    "generic key listing; no caller on the compile path (String() sorts)",
-	"compiler/internal/typeparams|InstanceMap.String|0":  "collects entries then sorts them before rendering",
+	"compiler/internal/typeparams|InstanceMap.Iterate|0":              "generic iterator over the two-level bucket map: order is decided at its callers, which are classified themselves",
+	"compiler/internal/typeparams|InstanceMap.Iterate|1":              "inner bucket loop of the same generic iterator",
+	"compiler/internal/typeparams|InstanceMap.Keys|0":                 "generic key listing; no caller on the compile path (String() sorts)",
+	"compiler/internal/typeparams|InstanceMap.String|0":               "collects entries then sorts them before rendering",
 	"compiler/internal/typeparams|PackageInstanceSets.allExhausted|0": "existence test",
 }
 
@@ -428,7 +428,7 @@ func ruleDET(prop string) RuleFunc {
 						nsort++
 						less := nodeString(c, ce.Args[1])
 						// the comparison must be on a unique key: import path, file name, or the full rendered value
-						ok := strings.Contains(less, ".Path()") || strings.Contains(less, "getFileName(") || strings.Contains(less, ".ImportPath")  || strings.Contains(less, ".String()") || strings.Contains(less, "Filename") || strings.Contains(less, "[i] < ") || strings.Contains(less, ".Pos()")
+						ok := strings.Contains(less, ".Path()") || strings.Contains(less, "getFileName(") || strings.Contains(less, ".ImportPath") || strings.Contains(less, ".String()") || strings.Contains(less, "Filename") || strings.Contains(less, "[i] < ") || strings.Contains(less, ".Pos()")
 						key := fmt.Sprintf("sort.Slice:%s.%s", pk, ctx.FuncName(fd))
 						if ok {
 							r.OK(key, c.Pos(ce.Pos()), "unstable sort on a key that is unique among the sorted elements: "+strings.Join(strings.Fields(less), " "))
